@@ -81,6 +81,7 @@ async def _run(kind, streams, schedule, eof_order, for_blobs):
         kinds = [kind] * n if isinstance(kind, str) else list(kind)
         router = StubRouter()
         inbox = [[] for _ in range(n)]
+        shared_tcp = [None]
         for i, k in enumerate(kinds):
             if k == "server-tcp":
                 from indi.transport.server.tcp import ConnectionHandler
@@ -91,6 +92,26 @@ async def _run(kind, streams, schedule, eof_order, for_blobs):
                 from indi.transport.server.tty import ConnectionHandler
                 r = FakeStdin()
                 h = ConnectionHandler(router, r, FakeStdout())
+                tasks.append(loop.create_task(h.wait_for_messages()))
+            elif k == "client-tcp-object":
+                # the connection comes out of the application's transport object, indi.transport.client.tcp.TCP, which an
+                # application may well use for both of a Client's connections and for every reconnect: an earlier BLOB connection
+                # was made through the very same object
+                from indi.transport.client import tcp as client_tcp
+                if shared_tcp[0] is None:
+                    shared_tcp[0] = client_tcp.TCP("server.invalid", 7624)
+                r = asyncio.StreamReader()
+                opened = []
+
+                async def open_connection(host, port, *a, **kw):
+                    rr = r if len(opened) % 2 else asyncio.StreamReader()     # first the earlier BLOB connection, then the one under test
+                    opened.append(rr)
+                    return rr, FakeWriter(f"c{len(opened)}")
+                patch.set(asyncio, "open_connection", open_connection)
+                await shared_tcp[0].connect(lambda m: None, for_blobs=True)
+                h = await shared_tcp[0].connect(inbox[i].append, **({"for_blobs": True} if for_blobs and for_blobs[i] else {}))
+                if h.reader is not r:
+                    raise AssertionError("harness: the handler under test does not read the stream it is fed through")
                 tasks.append(loop.create_task(h.wait_for_messages()))
             else:
                 from indi.transport.client.tcp import ConnectionHandler
@@ -127,7 +148,7 @@ async def _run(kind, streams, schedule, eof_order, for_blobs):
             b = Buffer()
             # set explicitly, whatever a default-constructed Buffer happens to have: BLOB-mode client connections have no junk
             # threshold, every other connection the protocol's 2048 characters
-            b.max_buffer_size_before_frontal_cleanup = None if (k == "client-tcp" and for_blobs and for_blobs[i]) else 2048
+            b.max_buffer_size_before_frontal_cleanup = None if (k.startswith("client-tcp") and for_blobs and for_blobs[i]) else 2048
             shadows.append(b)
         pos = [0] * n
         fed = [0] * n
